@@ -111,6 +111,45 @@ def run(ctx):
                 seen = True
                 ctx.ob('T15.real', gi.fq, 'item_list is subscripted with a real index', slot_is_real(w, o.val.slice), loc=loc(gi, o.node),
                        detail=txt(w.expand(o.val.slice)))
+    # T15.len: a negative position given by the caller is an *apparent* one: it is normalised with the apparent length
+    # len(self), never with the real length of the slot list (which still counts tombstones)
+    n_len = 0
+    for nm, mem in ci.members.items():
+        if not isinstance(mem, FuncInfo) or nm == '_get_apparent_index':
+            continue
+        params = set(mem.params[1:])
+        for n in ast.walk(mem.node):
+            tgt = other = None
+            if isinstance(n, ast.AugAssign) and isinstance(n.op, ast.Add) and isinstance(n.target, ast.Name):
+                tgt, other = n.target.id, n.value
+            elif isinstance(n, ast.BinOp) and isinstance(n.op, ast.Add):
+                for a, b in ((n.left, n.right), (n.right, n.left)):
+                    if isinstance(a, ast.Name) and isinstance(b, ast.Call) and call_name(b) == 'len':
+                        tgt, other = a.id, b
+            if tgt in params and isinstance(other, ast.Call) and call_name(other) == 'len' and other.args:
+                what = txt(other.args[0])
+                if what in ('self', 'self.item_list', 'self.item_index_map'):
+                    n_len += 1
+                    ctx.ob('T15.len', mem.fq, 'a caller-supplied (apparent) position `%s` is normalised with the apparent length' % tgt,
+                           what in ('self', 'self.item_index_map'), loc=loc(mem, n), detail='adds len(%s)' % what)
+    if n_len == 0:
+        ctx.unknown('T15.len', CLS, 'no negative-position normalisation found', ci.module.relpath)
+    # no method reaches into another instance's slot list / index map / dead-interval table (sharing the inner mutable
+    # interval lists or skipping the other object's own bookkeeping)
+    foreign = []
+    for nm, mem in ci.members.items():
+        if not isinstance(mem, FuncInfo):
+            continue
+        for n in ast.walk(mem.node):
+            if isinstance(n, ast.Attribute) and n.attr in ('item_list', 'item_index_map', 'dead_indices') and \
+                    not (isinstance(n.value, ast.Name) and n.value.id == 'self'):
+                foreign.append((mem, n))
+    for mem, n in foreign:
+        ctx.ob('T20.foreign', mem.fq, 'IndexedSet methods touch only their own slot list, index map and dead-interval table', False,
+               loc=loc(mem, n), detail='reads %s' % txt(n))
+    if not foreign:
+        ctx.ob('T20.foreign', CLS, 'IndexedSet methods touch only their own slot list, index map and dead-interval table', True,
+               loc=ci.module.relpath)
     ix = prog.func(CLS + '.index')
     rets = [n for n in ast.walk(ix.node) if isinstance(n, ast.Return) and n.value is not None]
     ok = bool(rets) and all(isinstance(r.value, ast.Call) and txt(r.value.func) == 'self._get_apparent_index' and
